@@ -134,8 +134,9 @@ class ReleaseTag:
     number: int = dataclasses.field(default=0)
 
     def __post_init__(self) -> None:
+        phase = self.phase.lower()
         object.__setattr__(
-            self, "phase", RELEASE_PHASE_NORMALIZATIONS.get(self.phase, self.phase)
+            self, "phase", RELEASE_PHASE_NORMALIZATIONS.get(phase, phase)
         )
 
     def to_string(self) -> str:
